@@ -1055,6 +1055,8 @@ def fold_new_locals(d, known, stats=None):
                 init = v['init']
                 while init.get('k') == 'CXXConstructExpr' and _is_copy(init):
                     init = init['c'][0]
+                if any(x.get('k') == 'ConditionalOperator' for x in _walk(init)):
+                    continue        # a selected value stays a declaration: the path enumeration splits it into the paths of its arms
                 rest = cs[i + 1:]
                 uses = []       # (sibling index, node)
                 for j, r in enumerate(rest):
